@@ -294,7 +294,7 @@ func (rn *runner) runConcCase(c *Case, raw []byte) {
 				kind = "exit"
 			}
 		}
-	case <-time.After(40 * time.Second):
+	case <-time.After(90 * time.Second):
 		cmd.Process.Kill()
 		<-done // the copier goroutines must be finished before the buffers are read
 		kind = "hang"
